@@ -183,7 +183,15 @@ def preprocess_tag_block_spacing(text: str) -> str:
     open_fence: tuple[str, int] | None = None
 
     for i, line in enumerate(lines):
-        fence_match = re.match(r"^ {0,3}(`{3,}|~{3,})(.*)$", line)
+        # A fence may stand after list markers and quote markers (`- ```py`, `> ~~~`), and its
+        # closing fence is then indented. (Erring on the side of "this is code" is harmless:
+        # code is left alone.)
+        if open_fence is None:
+            fence_match = re.match(
+                r"^(?:[ \t]*(?:>|[-*+]|\d{1,9}[.)])(?:[ \t]+|$))*[ \t]*(`{3,}|~{3,})(.*)$", line
+            )
+        else:
+            fence_match = re.match(r"^[ \t>]*(`{3,}|~{3,})(.*)$", line)
         if open_fence is not None:
             if (
                 fence_match
